@@ -44,17 +44,17 @@ Proof. exact vl_gen_sym_rowsum. Qed.
 Print Assumptions C08_sym_rowsum_volume.
 
 (* tetrahedral dual Laplacian (laplacian_op.laplacian_tetrahedra) of a cell list: zero row sums always; symmetric on every
-   cell list that passes the decidable test cell_adjacency_ok (cell_to_cell symmetric with multiplicities and inside the
-   cell range - what a conforming tetrahedral mesh gives), which the batch checker evaluates on every generated mesh *)
-Theorem C08_sym_rowsum_tetra_cond :
+   conforming tetrahedral mesh, stated on the cell list itself (cells_conforming: four distinct vertices per cell, every
+   triangular face of a cell in at most one other cell; the batch checker evaluates it on every generated mesh) *)
+Theorem C08_sym_rowsum_tetra :
   forall (T : Type) (O : ops T),
     ring_theory (o0 O) (o1 O) (oadd O) (omul O) (osub O) (oopp O) eq ->
     oofZ O 0%Z = o0 O ->
     (forall n : nat, oofZ O (Z.of_nat (S n)) = oadd O (o1 O) (oofZ O (Z.of_nat n))) ->
     forall (C : list cell),
-      rs0 T O (laplacian_tetrahedra O C) /\ (cell_adjacency_ok C = true -> symm T O (laplacian_tetrahedra O C)).
-Proof. exact laplacian_tetrahedra_sym_rowsum. Qed.
-Print Assumptions C08_sym_rowsum_tetra_cond.
+      rs0 T O (laplacian_tetrahedra O C) /\ (cells_conforming C = true -> symm T O (laplacian_tetrahedra O C)).
+Proof. exact laplacian_tetrahedra_conforming. Qed.
+Print Assumptions C08_sym_rowsum_tetra.
 
 (* ---- C08_stiffness ---------------------------------------------------------------------------------------------- *)
 (* cotan Laplacian = independently assembled P1 stiffness matrix, entrywise, for every list of non-degenerate triangles *)
@@ -143,16 +143,17 @@ Theorem C08_mass :
 Proof. exact mass_matrices_diagonal_totals. Qed.
 Print Assumptions C08_mass.
 
-(* area_weight_matrix_edges sums to the total area on every mesh whose stored edge list covers the three half-edges of each
-   face exactly once (decidable test edge_cover_ok, evaluated on every generated mesh by the batch checker) *)
-Theorem C08_mass_edges_cond :
+(* area_weight_matrix_edges sums to the total area on every oriented manifold surface with a consistent edge list, stated on
+   the lists themselves (surface_manifold_ok: no half-edge in two faces, stored edges pairwise distinct in both directions,
+   every side of every face stored; the batch checker evaluates it on every generated mesh) *)
+Theorem C08_mass_edges :
   forall (T : Type) (O : ops T),
     field_theory (o0 O) (o1 O) (oadd O) (omul O) (osub O) (oopp O) (odiv O) (oinv O) eq ->
     three O <> o0 O ->
     forall (V : list (vec T)) (F : list face) (E : list edge),
-      edge_cover_ok F E = true -> total O (mass_edges O false V F E) = sumT O (areas O V F).
-Proof. exact edge_mass_total. Qed.
-Print Assumptions C08_mass_edges_cond.
+      surface_manifold_ok F E = true -> total O (mass_edges O false V F E) = sumT O (areas O V F).
+Proof. exact edge_mass_total_manifold. Qed.
+Print Assumptions C08_mass_edges.
 
 (* tetrahedral meshes: vertex volumes sum to 4 x the total volume, cell volumes to the total volume *)
 Theorem C08_mass_volume :
